@@ -230,7 +230,7 @@ static int chain_build(Chain *c, const char *text) {
 		goto bad;
 	}
 	for (p = 0; p < c->npol; p++) {
-		snprintf(c->name[p], sizeof(c->name[p]), "policy_%d", p);
+		snprintf(c->name[p], sizeof(c->name[p]), "policy_%d", p & 7);
 		if (KSI_Policy_create(ksi, c->root[p].rules, c->name[p], &c->pol[p]) != KSI_OK || c->pol[p] == NULL) { fprintf(stderr, "KSI_Policy_create failed\n"); exit(3); }
 	}
 	for (p = 0; p + 1 < c->npol; p++)
@@ -243,6 +243,7 @@ bad:
 
 /* ---------------------------------------------------------------- one case */
 static uint64_t n_final[5], n_fallback_runs, n_calls, n_chainlen[MAXPOL + 1], n_ranpol[MAXPOL + 1], n_viol_total, n_deep, n_deep10;
+static uint64_t n_fp;
 static char seen_keys[64][160]; static int n_seen_keys;
 static int verbose;
 
@@ -283,7 +284,7 @@ static void run_case(Chain *c, KSI_VerificationContext *vc) {
 	{ /* distinct = chain shape + executed path (invoked rules and their outcomes) as predicted by the reference */
 		uint64_t h = c->text_hash;
 		for (i = 0; i < ref_nlog; i++) h = vh_mix(h, (uint64_t)ref_log[i] * 8 + g_out[ref_log[i]]);
-		vh_fp(h);
+		if (n_fp < 400000) { n_fp++; vh_fp(h); } /* local cap: the python side keeps all of them in memory */
 	}
 	n_final[fin.rc != KSI_OK ? 3 : fin.res]++;
 	if (fin.rc == KSI_OK && g_out[fin.last] == O_UNTOUCHED) n_final[4]++;
